@@ -30,7 +30,27 @@ type VerifSent struct {
 }
 
 // VerifRaw is a downstream request handed to handleRequest.
-type VerifRaw struct{ r *rawRequest }
+type VerifRaw struct {
+	r    *rawRequest
+	snap *RespValue // deep copy of the reply taken when the request is published (done is closed)
+}
+
+func verifClone(v *RespValue) *RespValue {
+	if v == nil {
+		return nil
+	}
+	c := &RespValue{Type: v.Type, Int: v.Int}
+	if v.Text != nil {
+		c.Text = append([]byte{}, v.Text...)
+	}
+	if v.Array != nil {
+		c.Array = make([]RespValue, len(v.Array))
+		for i := range v.Array {
+			c.Array[i] = *verifClone(&v.Array[i])
+		}
+	}
+	return c
+}
 
 // VerifNewRig builds the processor; every address in addrs gets a queue-only backend connection.
 func VerifNewRig(name string, cfg *service.Config, hosts []*host.Host, addrs []string) *VerifRig {
@@ -77,8 +97,12 @@ func (r *VerifRig) SetSlot(lo, hi int, master string, replicas []string) {
 // Handle runs the real redisProc.handleRequest on a request body.
 func (r *VerifRig) Handle(body *RespValue) *VerifRaw {
 	raw := newRawRequest(body)
+	w := &VerifRaw{r: raw}
+	// hooks run last-registered-first, so this one runs last: right before done is closed,
+	// i.e. it sees what a session writer woken by the completion can see at the earliest
+	raw.RegisterHook(func(rr *rawRequest) { w.snap = verifClone(rr.resp) })
 	r.p.handleRequest(raw)
-	return &VerifRaw{raw}
+	return w
 }
 
 // Done reports whether the request has been answered.
@@ -91,8 +115,11 @@ func (w *VerifRaw) Done() bool {
 	}
 }
 
-// Response is the reply (nil until Done).
-func (w *VerifRaw) Response() *RespValue { return w.r.resp }
+// Response is the reply as it was when the request completed (nil until Done).
+func (w *VerifRaw) Response() *RespValue { return w.snap }
+
+// Final is the reply object as it is now (it must not change after completion).
+func (w *VerifRaw) Final() *RespValue { return w.r.resp }
 
 // Drain returns what has been queued on the backend connections since the last
 // call, connection by connection in address order, FIFO within a connection.
